@@ -121,7 +121,7 @@ func (r *Report) allObls() []*Obligation {
 func (r *Report) solveAll() {
 	start := time.Now()
 	obls := r.allObls()
-	quick, full := 4, 20
+	quick, full := 4, 45
 	if r.Tier == "thorough" {
 		quick, full = 10, 120
 	}
